@@ -213,10 +213,10 @@ func (p *PublicKey) UnmarshalJSON(data []byte) error {
 
 func (p PublicKey) MarshalJSON() ([]byte, error) {
 	b := make([]byte, 0)
-	notEmpty := true
+	notEmpty := false
 	JSONWrite(&b, '{')
 	if v, err := p.ID.MarshalJSON(); err == nil && len(v) > 0 {
-		notEmpty = !JSONWriteProp(&b, "id", v)
+		notEmpty = JSONWriteProp(&b, "id", v) || notEmpty
 	}
 	if len(p.Owner) > 0 {
 		notEmpty = JSONWriteIRIProp(&b, "owner", p.Owner) || notEmpty
@@ -395,7 +395,7 @@ func (a Actor) MarshalJSON() ([]byte, error) {
 	if len(a.Streams) > 0 {
 		notEmpty = JSONWriteItemCollectionProp(&b, "streams", a.Streams, false)
 	}
-	if len(a.PublicKey.PublicKeyPem)+len(a.PublicKey.ID) > 0 {
+	if len(a.PublicKey.PublicKeyPem)+len(a.PublicKey.ID)+len(a.PublicKey.Owner) > 0 {
 		if v, err := a.PublicKey.MarshalJSON(); err == nil && len(v) > 0 {
 			notEmpty = JSONWriteProp(&b, "publicKey", v) || notEmpty
 		}
